@@ -325,6 +325,15 @@ func TestC22(t *testing.T) {
 				}
 			}
 			sort.Strings(expl)
+			// the key names the colliding call sites, not how many operations of a kind took part (two creates that both
+			// put a workload on the node another operation removed are the same collision as one)
+			uniq := expl[:0]
+			for i, e := range expl {
+				if i == 0 || e != expl[i-1] {
+					uniq = append(uniq, e)
+				}
+			}
+			expl = uniq
 			if len(expl) < 2 && !plan.Fired() {
 				// not explained by two colliding operations of this round: never matches a known finding
 				for _, op := range rd.Ops {
